@@ -24,7 +24,19 @@ def extract(path, out, via_app=False, save_index=True, stale=None):
                 with open(f, 'wb') as fd:
                     fd.write(b)
     try:
-        if via_app:
+        if via_app == 'locate':
+            # a third entry point: locate_log(<mixed file>, extract_fusion_engine_data=True) extracts to <stem>.p1log
+            import logging
+            logging.disable(logging.CRITICAL)
+            from fusion_engine_client.utils.log import locate_log
+            assert os.path.splitext(path)[0] + '.p1log' == out
+            got = locate_log(path, extract_fusion_engine_data=True)
+            if got is not None and os.path.abspath(got) != os.path.abspath(out):
+                return ('raise', 'locate_log returned %r, expected %r or None' % (got, out))
+            if (got is None) != (not os.path.exists(out)):
+                return ('raise', 'locate_log returned %r but the output file %s' % (got, 'exists' if os.path.exists(out) else 'does not exist'))
+            count = None
+        elif via_app:
             from fusion_engine_client.applications import p1_extract
             argv = sys.argv
             sys.argv = ['p1_extract', '-o', os.path.dirname(out), '-p', os.path.splitext(os.path.basename(out))[0], path]
@@ -90,6 +102,9 @@ def one_file(ctx, data, kinds, lines, pending, via_app=False, save_index=True, s
         if os.path.exists(old):
             os.remove(old)
     out = os.path.join(d, 'c18_out.p1log')
+    if via_app == 'locate':
+        out = os.path.splitext(path)[0] + '.p1log'
+        save_index = True
     if stale is not None and not save_index:
         stale = (stale[0], None)        # the property says nothing about an old index when none is requested
     r1 = extract(path, out, via_app, save_index, stale)
@@ -182,6 +197,12 @@ def run(ctx, budget):
         cut = rng.randrange(0, len(log) + 1) if False else len(log)
         files.append((log[:cut] + extra + rc.make_log(rng, 2, junk=False, t_start=600.25), 'timed'))
         files.append((rc.make_log(rng, 2, junk=False, t_start=7.5) + gen.token(rng, 'N', seqs) + gen.token(rng, 'U', seqs), 'timedN'))
+    # CRC-valid messages whose 16-bit type field is 0 (the value the index format also uses for its end marker), at every position
+    zt = gen.frame(0, b'xy', 3)
+    zz = gen.frame(9, b'abc', 4)
+    for nm, dd in (('type0-mid', zz + zt + zz), ('type0-last', b'junk' + zz + zt), ('type0-only', zt), ('type0-first', zt + b'\x2e\x31' + zz),
+                   ('type0-twice', zt + zt + zz + zt)):
+        files.append((dd, nm))
     # RTCM-like frames and message-free files
     files.append((b'\xd3\x00\x04' + bytes(7) + b'\xd3\x00\x00\x47\xea\x4b', 'rtcm'))
     files.append((b'', 'empty'))
@@ -207,6 +228,12 @@ def run(ctx, budget):
         for t in kinds if kinds.isalpha() and kinds.isupper() else ['x']:
             ctx.count('token_' + t)
     ic.rebind(80 * 1024, 16 * 1024)
+    # the locate_log(..., extract_fusion_engine_data=True) entry point, on fresh directories and where an earlier extraction of
+    # OTHER content left its files at the output path (non-empty inputs: the function does not consider empty files)
+    for i, f in enumerate(files):
+        if f[0] and (i % 4 == 1 or f[1] in ('rtcm', 'junk', 'syncs', 'junk2', 'timedN')):
+            one_file(ctx, f[0], f[1], lines, pending, via_app='locate', stale=stale_files(rng) if i % 2 == 0 else None)
+            ctx.count('via_locate_log')
     # message-free inputs (and a few others) once more without an index request
     for f in files:
         if f[1] in ('rtcm', 'empty', 'junk', 'syncs', 'junk2', 'empty2', 'timedN'):
